@@ -11,6 +11,7 @@ sub-sequence is still a valid history and the whole history shrinks as one value
   ["container", "value", plain value]       caller-owned nested value (for from_native / substitute / validate)
   ["declare-from", c]                       schema.list(container) / schema.dict(container)
   ["mutate", c, mutation]                   mutate a caller-owned container *after* it was used
+  ["repair", c]                             the caller replaces unconvertible leaves of its value in place
   ["from-native", c]  ["substitute", i, c]  ["validate", i, c]
   ["add", i, k] ["add-empty", i, variant] ["or", i, k] ["invert", i, seed] ["represent", i] ["make-required", i] ["getitem", i, n]
   ["iterate", i] ["eq", i, k] ["mutate-generated", i, seed]
@@ -40,7 +41,7 @@ RULE = ("Hypothesis draws histories of <=30 (quick) / <=50 (thorough) public ope
         "operation")
 ASSUMPTIONS = ["sequential histories only (d42 has no threads and the property does not quantify over interleavings)",
                "observable behaviour of a schema = independent canon + repr + verdicts on a fixed probe set"]
-BUDGET = {"quick": (300, 4), "thorough": (4000, 16)}
+BUDGET = {"quick": (300, 4), "thorough": (1500, 16)}
 
 PROBES = [None, True, 0, 1, -1, 1.5, "", "a", "ab", b"", [], [1], [1, "a"], {}, {"a": 1}, {"a": 1, "b": 2}]
 
@@ -54,6 +55,18 @@ def _ops(max_len):
                          lambda ch: st.one_of(st.lists(ch, max_size=3),
                                               st.dictionaries(st.sampled_from(["a", "b", "c"]), ch, max_size=3)),
                          max_leaves=6)
+    from ..codec import Wrapped, Zoo
+    hostile_leaf = st.sampled_from([Zoo("set"), Zoo("object"), Zoo("tuple"), Zoo("decimal")])
+    # a plain value with one unconvertible leaf below a container (from_native / % must fail on it, and
+    # must not remember anything about the failure), or the same content as a dict-subclass instance
+    hostile = st.one_of(
+        st.tuples(plain, hostile_leaf).map(lambda t: [t[0], [t[1]], {"k": t[0]}]),
+        st.tuples(plain, hostile_leaf).map(lambda t: {"a": t[0], "bad": {"deep": t[1]}}),
+        st.dictionaries(st.sampled_from(["a", "b", "c"]), plain, max_size=2).map(
+            lambda d: Wrapped("defaultdict", d)),
+        st.dictionaries(st.sampled_from(["a", "b", "c"]), plain, max_size=2).map(
+            lambda d: Wrapped("missingdict", d)),
+    )
     refine_call = st.integers(0, 60)      # index into the C10 call universe of the receiver's type
     mutation = st.one_of(
         st.tuples(st.just("append"), ref).map(list), st.just(["pop"]), st.just(["clear"]),
@@ -71,6 +84,8 @@ def _ops(max_len):
         st.tuples(st.just("mutate"), ref, mutation).map(list),
         st.tuples(st.just("mutate"), ref, mutation).map(list),
         st.tuples(st.just("container"), st.just("value"), plain).map(list),
+        st.tuples(st.just("container"), st.just("value"), hostile).map(list),
+        st.tuples(st.just("repair"), ref).map(list),
         st.tuples(st.just("from-native"), ref).map(list),
         st.tuples(st.just("from-native"), ref).map(list),
         st.tuples(st.just("substitute"), ref, ref).map(list),
@@ -101,8 +116,9 @@ def _ops(max_len):
                   st.lists(st.tuples(st.sampled_from(["a", "b", "c", 1]), ref).map(list), min_size=1,
                            max_size=3)).map(list),
         st.tuples(st.just("container"), st.just("value"), plain).map(list),
+        st.tuples(st.just("container"), st.just("value"), hostile).map(list),
     ).map(list)
-    tail = st.lists(op, min_size=8, max_size=max_len - 7)
+    tail = st.lists(op, min_size=8, max_size=max_len - 8)
     return st.tuples(prefix, tail).map(lambda t: t[0] + t[1])
 
 
@@ -274,7 +290,7 @@ def check(case, ctx):
                 elif kind == "mapping" and w.pool:
                     obj = {k: w.schema(i) for k, i in op[2]}
                 elif kind == "value":
-                    obj = copy.deepcopy(op[2])
+                    obj = values.realize(op[2])
                 else:
                     obj = None
                 if obj is not None:
@@ -330,6 +346,12 @@ def check(case, ctx):
                             mutated_after_use = True
                             interesting_at = step if interesting_at is None else interesting_at
                         w.csnaps[n] = new
+            elif name == "repair":
+                # the caller fixes its own value in place: every unconvertible leaf becomes a plain one
+                n, kind, obj = w.cont(op[1], ("value",))
+                if obj is not None:
+                    _repair(obj)
+                    w.csnaps[n] = _deep(obj)
             elif name == "from-native":
                 n, kind, obj = w.cont(op[1], ("value",))
                 if obj is not None:
@@ -476,6 +498,22 @@ def check(case, ctx):
         ctx.label("refinement-raised")
     if interesting_at is not None and interesting_at < len(case["ops"]) - 1:
         ctx.mark_nontrivial(case, sample_class=(mutated_after_use, raised_refine))
+
+
+def _repair(obj):
+    plain_types = (type(None), bool, int, float, str, bytes, list, dict)
+    if isinstance(obj, list):
+        for i, x in enumerate(obj):
+            if not isinstance(x, plain_types):
+                obj[i] = "repaired"
+            else:
+                _repair(x)
+    elif isinstance(obj, dict):
+        for k, x in list(obj.items()):
+            if not isinstance(x, plain_types):
+                obj[k] = "repaired"
+            else:
+                _repair(x)
 
 
 def _encodable(v):
